@@ -2,7 +2,7 @@
     Only statements closed by [exact]; the proofs are in Model/Runtime.v, Model/RuntimeCpp.v and
     Proofs/RuntimePy.v (the latter about code regenerated from py/formak/runtime.py on every run). *)
 From Coq Require Import ZArith QArith Qabs Qround List.
-From FV Require Import Base.Num Model.Runtime Model.RuntimeCpp gen.RuntimePy Proofs.RuntimePy.
+From FV Require Import Base.Num Model.Runtime Model.RuntimeCpp gen.RuntimePy Proofs.RuntimePy gen.RuntimeCppGen Proofs.RuntimeCpp.
 Import ListNotations.
 Open Scope Q_scope.
 
@@ -24,6 +24,14 @@ Theorem C10_cpp_moves_by_steps :
   option_map (fun s => (out, s)) (propagate N SV pmc max_dt cur st out).
 Proof. exact cpp_process_update_is_propagate. Qed.
 Print Assumptions C10_cpp_moves_by_steps.
+
+(** C++: the time arithmetic regenerated from ManagedFilter.h (both processUpdate overloads) applies the same steps. *)
+Theorem C10_cpp_header_moves_by_steps :
+  forall (N : Num) (SV : Type) (pmc : N -> SV -> SV) (max_dt cur : N) (st : SV) (out : N),
+  cpp_process_update_ctl N SV pmc max_dt cur st out = option_map (fun s => (out, s)) (propagate N SV pmc max_dt cur st out) /\
+  cpp_process_update_noctl N SV pmc max_dt cur st out = option_map (fun s => (out, s)) (propagate N SV pmc max_dt cur st out).
+Proof. intros; split; [apply gen_ctl_moves_by_steps | apply gen_noctl_moves_by_steps]. Qed.
+Print Assumptions C10_cpp_header_moves_by_steps.
 
 (** In exact arithmetic the step list is [qsteps]. *)
 Theorem C10_steps_exact : forall max_dt cur out, steps QNum max_dt cur out = Some (qsteps max_dt cur out).
